@@ -164,6 +164,21 @@ func replaySymbolic(u *Universe, st *SpecTables, d *Discharger, o *Oblig, repo s
 	}
 	fi := o.Decls.Fn
 	sig := fi.Sig
+	// A model interprets the uninterpreted stand-ins of library functions (Split pieces, template/reader functions,
+	// oracle tables) arbitrarily; equality of real and predicted outputs then proves nothing. Such obligations are
+	// only replayed for panics; a failing input is searched from the public entry points instead.
+	modelMeaningful := true
+	{
+		txt := o.Goal.S
+		for _, a := range o.Assumes {
+			txt += a.S
+		}
+		for _, sym := range []string{"split_slash", "split_colon", "nsplit_", "tt_parse", "tt_exec", "reader_", "mk_reader", "(pow13 ", "(pow15 ", "fmt_f64"} {
+			if strings.Contains(txt, sym) {
+				modelMeaningful = false
+			}
+		}
+	}
 	// 1. terms whose model values are needed
 	terms := map[string]string{}
 	type prm struct {
@@ -423,6 +438,10 @@ func replaySymbolic(u *Universe, st *SpecTables, d *Discharger, o *Oblig, repo s
 		json.Unmarshal([]byte(ln[7:]), &got)
 		if o.Kind != "post" {
 			rep.WriteString("the real code did not panic on this input; the refuted " + o.Kind + " obligation does not replay\n")
+			return rep.String(), false
+		}
+		if !modelMeaningful {
+			rep.WriteString("the obligation mentions uninterpreted stand-ins of library functions; the model's input is not a faithful input, no conclusion from this run\n")
 			return rep.String(), false
 		}
 		same := true
